@@ -154,10 +154,27 @@ fn c09_case(ctx: &Ctx, rep: &mut Report, rng: &mut Rng, version: Version, done: 
             let p = child(parent, &name);
             let writes_before = sess.shared.writes();
             let bytes_before = if !valid { Some(sess.shared.bytes()) } else { None };
+            let kind = rng.below(5);
+            // create_storage_all through missing intermediates: an invalid component
+            // anywhere must leave nothing behind
+            let p = if kind == 4 {
+                let mid1 = format!("n{}", rng.below(3));
+                let mid2 = format!("m{}", rng.below(3));
+                match rng.below(3) {
+                    0 => format!("{}/{}/{}", child(parent, &mid1), mid2, name),
+                    1 => format!("{}/{}/{}", child(parent, &mid1), name, mid2),
+                    _ => format!("{}/{}", child(parent, &mid1), name),
+                }
+            } else {
+                p
+            };
             let existed = sess.model.get_path(&p).is_some();
-            let step = match rng.below(4) {
+            if kind == 4 {
+                rep.count(if valid { "create_storage_all_deep.valid" } else { "create_storage_all_deep.invalid" });
+            }
+            let step = match kind {
                 0 => Step::Api(Op::CreateStorage(p.clone())),
-                1 => Step::Api(Op::CreateStorageAll(p.clone())),
+                1 | 4 => Step::Api(Op::CreateStorageAll(p.clone())),
                 2 => Step::HOpen { slot: 0, path: p.clone(), how: OpenHow::Create },
                 _ => Step::HOpen { slot: 0, path: p.clone(), how: OpenHow::CreateNew },
             };
@@ -184,7 +201,7 @@ fn c09_case(ctx: &Ctx, rep: &mut Report, rng: &mut Rng, version: Version, done: 
                     }
                     rep.count("invalid_name_no_effect_checked");
                 }
-            } else if !existed {
+            } else if !existed && kind != 4 {
                 // stored verbatim
                 let e = sess.cf().entry(&p).map_err(|e| ("valid name | not found after create".to_string(), format!("{p:?}: {e}")))?;
                 if e.name() != name {
